@@ -21,7 +21,7 @@ func init() {
 	fw.Register(&fw.Check{
 		ID:    "C19",
 		Level: "fault_enumeration",
-		Rule: "case = (scenario, fault kind); scenarios: count vectors (1,1,1,1,1) and (2,2,2,2,2) in quick, plus (3,3,3,3,3), (3,1,0,2,3), (2,2,0,0,2) and two further AMF-choice variations in thorough; fault kinds: close (instead of message k), abort (the association is ended with the request that message k would answer still UNREAD: the peer sees a reset, not end-of-file), close-after (right after sending message k, for every k < M after which the emulator still has to write) + 15 garbage variants (bytes laid out like an SCTP event notification; an undecodable answer that arrives 17 s late - after a UE's 15 / 16 s guard timers; the header of a DOWNLINK NAS TRANSPORT / of another message an AMF may send unsolicited, then noise; the first half of the message under the header of another procedure, one octet, 32 random octets, first half, truncated by one, wrong PDU alternative, length beyond the data, zeros, 2047 / 2048 / 8192 random octets). " +
+		Rule: "case = (scenario, fault kind); scenarios: count vectors (1,1,1,1,1) and (2,2,2,2,2) in quick, plus (3,3,3,3,3), (3,1,0,2,3), (2,2,0,0,2), two further AMF-choice variations and one LONG run (12,12,12,12,12; two fault kinds only) in thorough; fault kinds: close (instead of message k), abort (the association is ended with the request that message k would answer still UNREAD: the peer sees a reset, not end-of-file), close-after (right after sending message k, for every k < M after which the emulator still has to write) + 15 garbage variants (bytes laid out like an SCTP event notification; an undecodable answer that arrives 17 s late - after a UE's 15 / 16 s guard timers; the header of a DOWNLINK NAS TRANSPORT / of another message an AMF may send unsolicited, then noise; the first half of the message under the header of another procedure, one octet, 32 random octets, first half, truncated by one, wrong PDU alternative, length beyond the data, zeros, 2047 / 2048 / 8192 random octets). " +
 			"Each case runs the baseline under strace and then one emulator process per fault index k in [0,R) (exhaustive over k). Verdict per faulted run: exit status must be non-zero, no completion banner, not blocked: " +
 			"'blocked' = after the watchdog (nominal duration of the whole scenario + 20 s) two samples of /proc/<pid>/task/*/syscall three seconds apart both show recvmsg on the N2 descriptor while the AMF is quiescent. " +
 			"One extra case per kind drives EstablishPDU through the procedure driver with the fault on its own reply. distinct = hash(scenario, kind); non-trivial = at least 2 faulted runs",
@@ -31,7 +31,7 @@ func init() {
 		},
 		N: func(t string) int {
 			if t == "thorough" {
-				return 7*len(c19Kinds) + len(c19Kinds)
+				return 8*len(c19Kinds) + len(c19Kinds)
 			}
 			return 2*len(c19Kinds) + len(c19Kinds)
 		},
@@ -45,12 +45,12 @@ func init() {
 
 var c19Kinds = append([]string{"close", "close-after", "abort"}, refamf.GarbageKinds...)
 
-var c19Scenarios = [][5]int{{1, 1, 1, 1, 1}, {2, 2, 2, 2, 2}, {3, 3, 3, 3, 3}, {3, 1, 0, 2, 3}, {2, 2, 0, 0, 2}, {1, 1, 1, 1, 1}, {1, 1, 1, 1, 1}}
+var c19Scenarios = [][5]int{{1, 1, 1, 1, 1}, {2, 2, 2, 2, 2}, {3, 3, 3, 3, 3}, {3, 1, 0, 2, 3}, {2, 2, 0, 0, 2}, {1, 1, 1, 1, 1}, {1, 1, 1, 1, 1}, {12, 12, 12, 12, 12}}
 
 func runC19(c *fw.Case) (o fw.Outcome) {
 	nScen := 2
 	if c.Thorough() {
-		nScen = 7
+		nScen = 8 // the eighth is a LONG run (12 UEs, every procedure: several hundred checks precede the late faults - what depends on how much happened before shows only there)
 	}
 	nk := len(c19Kinds)
 	if c.Idx >= nScen*nk {
@@ -59,6 +59,12 @@ func runC19(c *fw.Case) (o fw.Outcome) {
 	scen := c.Idx / nk
 	kind := c19Kinds[c.Idx%nk]
 	v := c19Scenarios[scen]
+	if scen == 7 && kind != "close" && kind != "garbage:truncated-half" {
+		o.Tag("long-scenario-kind-not-run")
+		o.Digest, o.Nontrivial = fw.HashS("c19-long-skip", kind), true
+		o.Input = "the long scenario is faulted with two kinds only (close, first half of the message)"
+		return
+	}
 	// the scenario (configuration + AMF choices) depends on the scenario number only, so that all kinds fault the same conversation
 	r := fw.CaseRand("C19-scenario", c.Seed, c.Tier, scen)
 	cfg := genEmuConfig(r)
